@@ -11,8 +11,11 @@ import (
 // The manifest grammar.
 //
 //	manifest  ::= namespaces{2..4} × decl* × resource*            packageRoot fixed
+//	namespace graph ::= DAG | DAG + one closed two-namespace cycle (two records nothing else refers to, reaching
+//	              equally named types of both namespaces) | wild (references in any direction; reaches the recorded
+//	              defects C12-cyclic-flagging-order / C12-package-cycle-undetected, tagged wild-references)
 //	decl      ::= record | enum | fixed | typeref | union | complexKey
-//	record    ::= includes (chain | diamond | none) × field{1..5}
+//	record    ::= includes (none | one | two, chains allowed; no diamonds: see probe include-diamond) × field{1..5}
 //	field     ::= name × type × (required | optional | default(json value of the type) | optional+default)
 //	type      ::= prim(7) | ref(any named type, any namespace) | array(type) | map(type)     depth ≤ 3
 //	enum      ::= symbol{1..5}   symbols incl. leading digit, '_' and '$'
@@ -27,7 +30,7 @@ import (
 //
 // Well-formedness kept by construction (what Pegasus / rest.li guarantee, plus the recorded generator
 // limitations the family stays away from — those are the `probes`): names are identifiers; field names are
-// distinct in a record after include flattening (diamonds excepted: the shared base appears once per path);
+// distinct in a record after include flattening (hence no diamonds and no ancestor next to its descendant);
 // no field's Go name equals an included record's name (F19); required record-typed fields and includes only
 // point to earlier records (no infinite values); member Go names distinct inside a union; path key names
 // distinct along a resource path; default literals are values of the field's type.
@@ -807,9 +810,12 @@ func Generate(rng *rand.Rand, full bool) *Manifest {
 	for _, d := range g.m.Decls {
 		switch d.Kind {
 		case "record":
-			n := 1 + rng.Intn(5)
+			n := rng.Intn(6) // 0: an empty record
 			if full {
 				n = 5
+			}
+			if n == 0 {
+				g.m.tag("empty-record")
 			}
 			g.fillRecord(d, n)
 		case "union":
